@@ -14,18 +14,20 @@ ENUM2NAME = {'MAXSIZE': 'maxsize', 'MINSIZE': 'minsize', 'GENEROUS': 'gen', 'GRE
              'MINSQCOST': 'minsqcost', 'LOADMAXBAL': 'lmb', 'LOADSUMBAL': 'lsb', 'MINCOSTLSB': 'mincostlsb'}
 
 
-def argv_of(o, path):
-    a = ['-f', path, '-na', str(o['na'])]
+def argv_of(o, path, names=None):
+    """names: spelling of the options as exported by the specification (MC_Options); default short names"""
+    fx = (names or {}).get('fixed') or {}
+    a = [fx.get('f', '-f'), path, fx.get('na', '-na'), str(o['na'])]
     if o['twopl']:
-        a.append('-twopl')
+        a.append(fx.get('twopl', '-twopl'))
     if o['pc']:
         a.append('-pc')
     if o['stab']:
-        a.append('-stab')
+        a.append(fx.get('stab', '-stab'))
     if o.get('bf'):
         a.append('-bf')
-    for f in o['flags']:
-        a.append(FLAG[f['c']])
+    for i, f in enumerate(o['flags']):
+        a.append(names['flags'][i] if names and names.get('flags') else FLAG[f['c']])
         a.append(str(f['pos']))
         a.extend(str(x) for x in f['x'])
     return a
